@@ -66,6 +66,10 @@ Extra == <<
   \* two mounts whose targets differ only by a trailing slash are the same mount point
   [n |-> "volume targets trailing slash", top |-> FALSE, p |-> <<"volumes">>, v |-> Sq2(M3("type", S("volume"), "source", S("data"), "target", S("/data")), M3("type", S("volume"), "source", S("other"), "target", S("/data/")))],
   [n |-> "extra_hosts several addresses", top |-> FALSE, p |-> <<"extra_hosts">>, v |-> L(<<S("h=10.0.0.2"), S("h=10.0.0.1"), S("g=::1")>>)],
+  [n |-> "env_file format", top |-> FALSE, p |-> <<"env_file">>, v |-> Sq2(M3("path", S("./a.env"), "required", B(FALSE), "format", S("raw")), M2("path", S("./b.env"), "format", S("raw")))],
+  [n |-> "device request count zero", top |-> FALSE, p |-> <<"deploy">>, v |-> M1("resources", M1("reservations", M1("devices", Sq1(M2("capabilities", Sq1(S("gpu")), "count", I(0))))))],
+  [n |-> "ports published int and string", top |-> FALSE, p |-> <<"ports">>, v |-> Sq2(M2("target", I(80), "published", I(8080)), M2("target", I(80), "published", S("8080")))],
+  [n |-> "command empty string", top |-> FALSE, p |-> <<"command">>, v |-> S("")],
   [n |-> "nested service extension", top |-> FALSE, p |-> <<"x-hints">>, v |-> M2("x-inner", M1("x-deep", I(1)), "plain", Sq1(M1("x-in-list", B(TRUE))))]
 >>
 \* each non-empty set of top-level sections absent while the others are present
